@@ -51,6 +51,8 @@ impl<'a> Writer<'a> {
     pub fn write_message<M: PbMessage>(&mut self, m: &M) -> (r: Result<(), crate::pb_shim::PbError>)
         ensures
             mut_ref_future(final(self).b) == mut_ref_future(old(self).b),
+            // A-VECWRITE: the backend is a Vec<u8> (`pb_write_all` of a Vec cannot fail) and messages have no failing encoder
+            r is Ok,
             r is Ok ==> mut_ref_current(final(self).b)@ == mut_ref_current(old(self).b)@.add(pb_frame(*m)),
     { unimplemented!() }
 
